@@ -5,11 +5,15 @@
 (* class.  On such pairs the transcription and the property coincide:        *)
 (* refusal (or all-False / all-True for == / !=).                            *)
 EXTENDS MC_C01, IOUtils
-CONSTANTS Strides, AllPairs
+CONSTANTS Strides, AllPairs, XStride
 TableData == JsonDeserialize(IOEnv.TABLE)
-N == Len(TableData)
-MCTable == [n \in {TableData[j].name : j \in 1..N} |->
-              LET r == CHOOSE j \in 1..N : TableData[j].name = n IN [UnitRec(n, TableData[r].dim, IF TableData[r].dim = "1" THEN <<1,7>> ELSE ROne, RZero)
+\* primary rows (one unit per dimension) come first; extra rows are the OTHER dimensionless units of the table
+\* (percent, Zsun, counts, ...): one = its scale is exactly one (then it equals the null unit)
+NAll == Len(TableData)
+N == Cardinality({j \in 1..NAll : ~TableData[j].extra})
+MCTable == [n \in {TableData[j].name : j \in 1..NAll} |->
+              LET r == CHOOSE j \in 1..NAll : TableData[j].name = n IN
+              [UnitRec(n, TableData[r].dim, IF TableData[r].dim = "1" /\ ~TableData[r].one THEN <<1,7>> ELSE ROne, RZero)
                  EXCEPT !.em = {TableData[r].emdims[k] : k \in DOMAIN TableData[r].emdims}]]
 Pair(a, b) == a # b /\ (AllPairs \/ \E s \in Strides : b = ((a - 1 + s) % N) + 1)
 TUfOps == (NeedsComm \cup EqNe) \cap UfOps
@@ -25,11 +29,25 @@ TNext ==
           \/ \E op \in TUfOps, form \in TForms : \E kk \in TKinds(form) :
                /\ UfLegal(op, form, kk[1], kk[2])
                /\ c' = Case("ufunc", op, form, kk[1], n0, kk[2], n1)
-          \/ \E op \in (ArrFns \cap ArrOps) \ {"copyto","einsum"} :
-               /\ ArrLegal(op, TArrKinds(op)[1], TArrKinds(op)[2])
-               /\ c' = Case("arrfn", op, "call", TArrKinds(op)[1], n0, TArrKinds(op)[2], n1)
+          \/ \E op \in (ArrFns \cap ArrOps) \ {"copyto","einsum"}, form \in ArrForms \cup {"call"} :
+               /\ ArrLegal(op, TArrKinds(op)[1], TArrKinds(op)[2]) /\ ArrFormLegal(op, form)
+               /\ c' = Case("arrfn", op, form, TArrKinds(op)[1], n0, TArrKinds(op)[2], n1)
           \/ \E k1 \in {"q","a"} : c' = Case("setitem", "setitem", IF k1 = "q" THEN "index" ELSE "slice", "a", n0, k1, n1)
           \/ /\ \E e \in {"to","in_units","to_value","convert_to_units"}, f \in {"obj","str"} :
                   c' = Case("conv", e, f, IF f = "obj" THEN "q" ELSE "a", n0, "u", n1)
           \/ \E e \in {"add","subtract"} : c' = Case("unitop", e, "operator", "u", n0, "u", n1)
+\* every dimensionless unit of the table (scaled or not) meets dimensional units where a dimensionless VALUE is treated
+\* specially: __setitem__ (value / slice / list of quantities), conversion in both directions, merging array functions
+TXNext ==
+  /\ c = <<>>
+  /\ \E a \in 1..N, x \in (N+1)..NAll :
+       /\ TableData[a].dim # "1" /\ (AllPairs \/ a % XStride = 0)
+       /\ LET n0 == TableData[a].name nx == TableData[x].name IN
+          \/ \E k1 \in {"q","a","lq"} : c' = Case("setitem", "setitem", IF k1 = "q" THEN "index" ELSE "slice", "a", n0, k1, nx)
+          \/ \E e \in {"to","in_units","to_value","convert_to_units"} :
+               \/ c' = Case("conv", e, "obj", "q", nx, "u", n0)
+               \/ c' = Case("conv", e, "obj", "a", n0, "u", nx)
+          \/ \E op \in {"concatenate","where","insert","clip","putmask"} \cap ArrFns :
+               c' = Case("arrfn", op, "call", "a", n0, "a", nx)
+TNextAll == TNext \/ TXNext
 =============================================================================
